@@ -610,8 +610,11 @@ func (hc *connectStreamingHandlerConn) Spec() Spec {
 
 func (hc *connectStreamingHandlerConn) Receive(msg any) error {
 	if err := hc.unmarshaler.Unmarshal(msg); err != nil {
-		// Clients may not send end-of-stream metadata, so we don't need to handle
-		// errSpecialEnvelope.
+		// Clients may not send end-of-stream metadata. If one does anyway, that's
+		// a malformed request, not the end of the request stream.
+		if errors.Is(err, errSpecialEnvelope) {
+			return errorf(CodeInvalidArgument, "protocol error: request contains an end-of-stream message")
+		}
 		return err
 	}
 	return nil // must be a literal nil: nil *Error is a non-nil error
